@@ -12,6 +12,8 @@ CONSTANTS
   NDis = 1
   NVec = 0
   NCbSend = 1
+  HostKinds = {"Empty", "PollRecv", "SemSet", "SemGet", "SemClr", "SemMask"}
+  NDspMask = 0
   TrackLockset = TRUE
 SPECIFICATION Spec
 INVARIANTS ValuesOK LocksetOK NoDeadlock HeldOK OwedSafe
